@@ -50,7 +50,11 @@ def gen_swarm(rng):
 
 
 def gen_history_trace(rng, swarm=None):
+    own = swarm is None
     swarm = swarm or gen_swarm(rng)
+    if own and rng.random() < 0.15:
+        swarm["explicit_history_limit"] = True
+        swarm["weights"]["set_limit"] = 0  # (an explicit limit is fixed at construction)
     if swarm["program"]:
         init = gen.gen_program(rng, swarm)
     else:
@@ -221,7 +225,17 @@ class HistoryEngine(Engine):
         out.swarm = trace.get("swarm")
         swarm = trace.get("swarm") or {}
         limit = trace["limit"]
-        world = World(trace["init"], limit=limit, prefs={"automatic_soa": bool(swarm.get("soa", True))}, tag="c11-")
+        explicit = bool(swarm.get("explicit_history_limit"))
+        world = World(trace["init"], limit=(100 if explicit else limit), prefs={"automatic_soa": bool(swarm.get("soa", True))}, tag="c11-")
+        if explicit:
+            # the client gives the history its limit directly (History(project, maxundos=n)) instead of
+            # through the max_history_items preference
+            from rope.base.history import History
+
+            own_history = History(world.project, maxundos=limit)
+            world.project._history = own_history  # (where the lazy property keeps it)
+            if world.project.history is not own_history:
+                raise kernel.HarnessError("the explicitly constructed history is not the project's history")
         try:
             model = HistoryModel(kernel_tree(world), limit)
             sched = []
